@@ -29,7 +29,8 @@ def cubes(tier, has_fc):
                 for cj in cjs:
                     pfcs = [False, True] if (has_fc and kind != 1) else [False]
                     for pfc in pfcs:
-                        out.append({'N': N, 'D': D, 'I': I, 'kind': kind, 'fd': fd, 'cj': cj, 'pfc': pfc, 'valid': False})
+                        # quick: the identity of the reported error is decided on the cubes without fast-check preference only
+                        out.append({'N': N, 'D': D, 'I': I, 'kind': kind, 'fd': fd, 'cj': cj, 'pfc': pfc, 'valid': False, 'identity': (tier != 'quick') or not pfc})
         out.append({'N': N, 'D': D, 'I': I, 'kind': 1, 'fd': False, 'cj': 0, 'pfc': False, 'valid': True})
     return out
 
@@ -80,7 +81,7 @@ def build(mir, cube):
     qs.append(Query('reachable-failure-never-skipped', z3.And(z3.Not(val.is_err), strict), ops=[val], world=w, known=known,
                     describe=lambda m: {'reachable_failures': [d[:3] for c, d in fails_strict if ev(m, c)]}))
     # (iii) the reported error names a reachable failing specifier / referring location
-    if val.err is not None:
+    if val.err is not None and (cube.get('identity', True)):
         e = val.err
         ok_id = []
         for c, d in fails_inplace:
